@@ -17,6 +17,14 @@ def dump_langs():
     return langs
 
 
+def dump_lang_tokens():
+    """MAL token sequences (Tok!LangToks) of the library languages, printed by TLC"""
+    toks = {}
+    tlc.run_tlc('DumpLangs', 'DumpLangs.cfg', workers=1,
+                on_json=lambda v: toks.__setitem__(v['name'], v['toks']) if v.get('wf') else None)
+    return toks
+
+
 def signature(d):
     return (d.get('kind'), d.get('action'), d.get('component'), tuple(d.get('features') or ()))
 
